@@ -5,11 +5,18 @@ from . import common
 from . import stft_common as sc
 
 PROP = "C02"
-MODULES = ["PdsVerif.Props.C02"]
+MODULES = ["PdsVerif.Props.StftTie", "PdsVerif.Props.C02"]
 MODEL_MODULES = ["PdsVerif.Model.StftDrv"]
-REQUIRED = ["PdsVerif.C02." + n for n in [
+REQUIRED = ["PdsVerif.StftTie." + n for n in ["full_pad_left_eq", "full_short_eq", "full_num_frames_eq", "full_pad_right_eq", "fin_pad_left_eq", "fin_num_frames_eq", "chunk_frame_length_eq", "chunk_num_frames_eq", "chunk_first_pad_eq", "torch_arith_eq_numpy", "torch_no_frame_eq"]] + ["PdsVerif.C02." + n for n in [
     "full_short", "full_count", "full_frame_spec", "full_frames_length", "frame_origin", "walk_covers",
     "walk_idx_in_range", "walk_bins_distinct", "full_spectrum_sum", "walk_sum_eq_full_spectrum", "walk_real_within_half", "real_doubling", "default_len_bin"]]
+
+def translate(repo):
+    """framing arithmetic of compute.py / torch.py -> Generated/StftConsts.lean (theorems: Props/StftTie.lean)"""
+    from .translate import stftconsts
+    return stftconsts.generate(repo)
+
+
 RULE = (
     "walk: (DFT size D in 2..67 (all residues mod 4), start bin < D, truncated length <= D, integer/gaussian-integer taps) "
     "driven through the public STFT computer with a SpecBank tracer and a signal irfft(A) of integer magnitudes A, "
